@@ -59,6 +59,19 @@ claim("C06","exploration","runtime monitor: the real thriftrw binary and the Go 
  "Programs valid by construction, and the same programs with names replaced by Go keywords, initialisms and names of generated methods/helpers, are pushed through the real CLI under random option sets and layouts into a scratch module that replaces thriftrw with the working tree; go build attributes every diagnostic to its program. A valid program rejected, an accepted program that does not compile, or a crash instead of an error is a violation.",
  "SAFE rules of Appendix A define 'valid'; go vet is not run", "DESIGN.md §5 C06")
 
+claim("C01","exploration","runtime monitor: differential oracle (refcodec + IDL model) over generated code of random programs, values injected/extracted by reflection so serialisers and deserialisers are judged separately",
+ "Random valid programs go through the real CLI, the generated packages are built into a driver whose registry hands out the generated types; for random logical values both serialisers are decoded by the reference codec and projected onto the schema, both deserialisers are fed reference encodings (shuffled order, random chunking) and read back by reflection, schema-violating Go values must be refused, accessors/constants/default constructors are compared with the model's cast literals.",
+ "trusts refcodec, the model's Lower/Project/FillDefaults, and reflection-based extraction; programs that C06 would flag are skipped", "DESIGN.md §5 C01")
+claim("C04","exploration","runtime monitor: pairwise path-agreement oracle (value-based vs streaming, both directions) over valid, evolved, mutated and truncated inputs under scripted read segmentation",
+ "For every generated type, valid encodings, encodings with foreign fields, evil encodings, truncations and mutations are decoded through FromWire(Decode) and through Decode(stream) under several chunkings; acceptance by the value path implies acceptance and a bitwise-equal value on the stream path. Go values (valid and randomly nil-perturbed) must make both serialisers fail or produce encodings of the same value.",
+ "no reference needed; inputs of the open C13 class are routed to C13", "DESIGN.md §5 C04")
+claim("C14","exploration","runtime monitor: equivalence-law checks plus an independent structural comparison over decoded triples (value, permuted re-encoding, single perturbation)",
+ "Triples of decoded values per generated struct-like type: reflexivity, symmetry, transitivity, order-insensitivity for sets/maps, sensitivity to list order and presence, agreement with wire.ValuesAreEqual on the ToWire forms and with LKey equality of the logical values, no panic on nil receiver/argument.",
+ "values free of NaN and duplicate-free after defaults, as the statement assumes", "DESIGN.md §5 C14")
+claim("C15","exploration","runtime monitor: non-interference oracle (texts must not depend on hidden fields) plus unique-marker search over String/Error/zap output of generated code",
+ "Programs with go.redact/go.nolog on fields of every type and depth; for value pairs that differ only in hidden fields String(), Error() and real zapcore encoder output must be identical; markers of hidden fields must not occur, markers of visible string fields must occur (under their label in zap).",
+ "zap output observed through zapcore.MapObjectEncoder; visibility asserted for string-typed fields only", "DESIGN.md §5 C15")
+
 NOT_IMPL = "check not implemented yet in this round (statement about the machinery, not the technique)"
 
 def main():
